@@ -4,7 +4,7 @@ from __future__ import annotations
 
 from vf.cond import cond
 
-from .common import DictLoader, Environment, LiquidError, concrete_int, drive
+from .common import DictLoader, Environment, LiquidError, concrete_int, drive, untraced
 
 from liquid2 import CachingDictLoader  # noqa: E402
 from liquid2.exceptions import RequiredBlockError, TemplateInheritanceError  # noqa: E402
@@ -228,3 +228,46 @@ def twin_chain(c1: int) -> bool:
         return env.get_template("T0").render() == env.get_template("T1").render()
     except LiquidError:
         return True
+
+
+# ---- several leaves sharing parents through one (caching) loader --------------------------------
+def _family_sources(cb: int, ca: int, cc: int) -> dict:
+    """base (config cb) with two children A (config ca) and B (config cc), and a grandchild of A."""
+    base = build_sources([(0, 0, False), _cfg(cb)])["T1"].replace("<1>", "<B>").replace("</1>", "</B>")
+    def child(name: str, c: int, parent: str) -> str:
+        body = build_sources([_cfg(c), (0, 0, False)])["T0"]
+        return body.replace("{% extends 'T1' %}", "{% extends '" + parent + "' %}").replace("x0(", "x" + name + "(").replace("y0(", "y" + name + "(")
+    return {"base": base, "A": child("A", ca, "base"), "B": child("B", cc, "base"), "AA": child("AA", 5, "A")}
+
+
+LEAVES = ["base", "A", "B", "AA"]
+
+
+def _family_view(env: Environment, leaf: str, is_async: bool):
+    try:
+        t = env.get_template(leaf)
+        return ("ok", drive(t.render_async()) if is_async else t.render())
+    except RequiredBlockError:
+        return ("required", None)
+    except TemplateInheritanceError:
+        return ("inherit", None)
+    except LiquidError as e:
+        return ("liquid", type(e).__name__)
+
+
+@cond(
+    pre=["0 <= cb < 16", "0 <= ca < 16", "0 <= cc < 16", "0 <= l1 < 4", "0 <= l2 < 4"],
+    timeout=300,
+    shard={"cb": [1, 3, 5, 7, 9, 11, 13, 15]},
+    covers="templates of one family (base, two children, a grandchild) loaded through one CachingDictLoader: rendering leaf l1 and then leaf l2 gives, for l2, exactly what a fresh Environment gives (block stacks, `required` flags and parent links resolved for one chain never influence another chain or a later render of the parent itself), sync and async",
+    bounds="base configuration from 8 shards (all define x, some required), children 16 x 16 configurations (no nesting), ordered pairs of 4 leaves",
+    grid=lambda: [(cb, ca, cc, l1, l2, a) for cb in (3, 15, 7) for ca in (1, 0, 6) for cc in (0, 4) for l1 in range(4) for l2 in range(4) for a in (False, True)],
+)
+def s_family(cb: int, ca: int, cc: int, l1: int, l2: int, is_async: bool) -> bool:
+    ca, cc = concrete_int(ca, 0, 15), concrete_int(cc, 0, 15)
+    l1, l2 = concrete_int(l1, 0, 3), concrete_int(l2, 0, 3)
+    sources = _family_sources(cb, ca, cc)
+    shared = untraced(lambda: Environment(loader=CachingDictLoader(dict(sources))))
+    fresh = untraced(lambda: Environment(loader=DictLoader(dict(sources))))
+    _family_view(shared, LEAVES[l1], False)
+    return _family_view(shared, LEAVES[l2], is_async) == _family_view(fresh, LEAVES[l2], is_async)
